@@ -17,7 +17,7 @@ func init() {
 			"C14.wirenil — nil-ability of protobuf message pointers is computed from the generated structs (singular message-typed fields of messages may be nil after decoding; oneof wrapper members and repeated elements are allocated by the decoder) and propagated through parameters to a fixpoint over module call sites; in everything reachable from the gRPC handler every field access through a possibly-nil message pointer is dominated by a nil test (generated nil-safe getters count as guards); " +
 			"C14.exprnil — the protobuf-to-expression conversion never returns a nil Expression together with a nil error (every successful return — of the conversion, or of the helper whose results a case returns — yields a freshly allocated node, and the default case of the oneof switch is an error), and a converted operand is used only where its conversion error is known to be nil, so Execute never calls a method on a nil Expression that came from the wire; " +
 			"C14.slicecap — refutation of re-slicings in the evaluation code: where the capacity is evident (fixed array, make) and the bound is linear in one length, no length allowed by the dominating tests makes the bound exceed the capacity; " +
-			"C14.bounds — every slice indexing in the module code a request reaches (the handler's own code, the conversion package, the evaluation code reachable from Execute) is a range-loop index or is dominated by a length test (operand lists can be empty on the wire, query ids are chosen by the client); " +
+			"C14.bounds — every slice indexing in the module code a request reaches (the handler's own code, the conversion package, the evaluation code reachable from Execute) is a range-loop index or is dominated by a length test (operand lists can be empty on the wire, query ids are chosen by the client) — for a constant index into a slice parameter of an unexported function that is only ever called directly, the test may dominate every call instead, on the argument or on the list the argument is the element-wise evaluation image of (one result per operand, error known nil); a test on another list (the operands before nested operators were spliced in) does not count; an index that is tested to be non-negative and below another index that is valid there is accepted as well; " +
 			"C14.divzero — every integer division or remainder in that code has a divisor that is a non-zero constant or is known non-zero from a dominating test (every list of a decodable request can be empty); " +
 			"C14.errors — conversion and execution errors (unknown columns included) are returned from the handler as RPC errors, with a nil response; where they arise in a helper of the handler's package, the helper returns them and the handler treats the helper's error the same way. " +
 			"NOT decided: stack depth for deeply nested expressions (bounded by protobuf-go's recursion limit and gRPC's message size limit, trusted); that the server keeps answering correctly afterwards beyond the read lock being released by its defer (C04).",
@@ -234,8 +234,15 @@ func runC14(c *Ctx) {
 			if k, isK := constInt(ia.Index); isK {
 				okB = k >= 0 && lenAtLeast(ia.X, k+1, ia)
 				why = "constant index without a dominating length test"
+				// the indexed slice is a parameter and the length is guaranteed where the function is called (rules_ag28.go)
+				if !okB && k >= 0 && c14IndexByCallers(c, ia, k+1) {
+					okB = true
+				}
 			} else {
 				okB, why = c.fc.indexInBounds(ia.X, ia.Index, ia)
+				if !okB && c14BelowValidIndex(c.fc, ia.X, ia.Index, ia) {
+					okB = true // 0 <= index < another index that is valid here (rules_ag31.go)
+				}
 			}
 			c.r.check(okB, "C14.bounds", key, "index covered by a length test / range loop",
 				"a slice is indexed while a request is handled without a bounds guarantee ("+why+"): an operator with an empty operand list or an index computed from a number the client chose (a query id), both of which decode fine from the wire, makes the handler panic", c.w.ipos(i))
